@@ -45,6 +45,10 @@ func (w *ConfWatcher) Initialize() error {
 	w.absolutePath, _ = filepath.Abs(w.FilePath)
 	parentPath := filepath.Dir(w.absolutePath)
 
+	// resolve the watched path here and not in run(),
+	// in order to detect changes that happen right after Initialize()
+	watchedPath, _ := filepath.EvalSymlinks(w.absolutePath)
+
 	err = w.inner.Add(parentPath)
 	if err != nil {
 		w.inner.Close() //nolint:errcheck
@@ -55,7 +59,7 @@ func (w *ConfWatcher) Initialize() error {
 	w.signal = make(chan struct{})
 	w.done = make(chan struct{})
 
-	go w.run()
+	go w.run(watchedPath)
 
 	return nil
 }
@@ -66,20 +70,18 @@ func (w *ConfWatcher) Close() {
 	<-w.done
 }
 
-func (w *ConfWatcher) run() {
+func (w *ConfWatcher) run(previousWatchedPath string) {
 	defer close(w.done)
 
 	var lastCalled time.Time
-	previousWatchedPath, _ := filepath.EvalSymlinks(w.absolutePath)
+
+	// set when a relevant event has been received and the signal is yet to be sent
+	var pending <-chan time.Time
 
 outer:
 	for {
 		select {
 		case event := <-w.inner.Events:
-			if time.Since(lastCalled) < minInterval {
-				continue
-			}
-
 			currentWatchedPath, _ := filepath.EvalSymlinks(w.absolutePath)
 			eventPath, _ := filepath.Abs(event.Name)
 			eventPath, _ = filepath.EvalSymlinks(eventPath)
@@ -91,17 +93,28 @@ outer:
 				(eventPath == currentWatchedPath &&
 					((event.Op&fsnotify.Write) == fsnotify.Write ||
 						(event.Op&fsnotify.Create) == fsnotify.Create)) {
-				// wait some additional time to allow the writer to complete its job
-				time.Sleep(additionalWait)
 				previousWatchedPath = currentWatchedPath
 
-				lastCalled = time.Now()
-
-				select {
-				case w.signal <- struct{}{}:
-				case <-w.terminate:
-					break outer
+				// do not signal more than once every minInterval, but never drop a change:
+				// changes that arrive too early are signaled when the interval has elapsed.
+				if pending == nil {
+					// wait some additional time to allow the writer to complete its job
+					wait := additionalWait
+					if d := minInterval - time.Since(lastCalled); d > wait {
+						wait = d
+					}
+					pending = time.After(wait)
 				}
+			}
+
+		case <-pending:
+			pending = nil
+			lastCalled = time.Now()
+
+			select {
+			case w.signal <- struct{}{}:
+			case <-w.terminate:
+				break outer
 			}
 
 		case <-w.inner.Errors:
